@@ -23,12 +23,13 @@ PY
     demo="cargo test -p rumqttd --offline --lib c13_demo"
   else
     crate=${place%%/*}
+    mkdir -p $(dirname $place)
     cp $d/demo.rs $place
     demo="cargo test -p $crate --offline --test seeded_demo"
   fi
-  r0=$($demo 2>&1 | grep -E "^test result" | tr '\n' ' ')
+  r0=$($demo 2>&1 | grep -E "^test result|^error" | tr '\n' ' ')
   git apply $d/patch.diff || { echo "$id: patch does not apply" > $d/confirm.txt; continue; }
-  r1=$($demo 2>&1 | grep -E "^test result" | tr '\n' ' ')
+  r1=$($demo 2>&1 | grep -E "^test result|^error" | tr '\n' ' ')
   if [[ $crate == rumqttc ]]; then suite=$(cargo test -p rumqttc --offline 2>&1 | grep -E "^test result" | tr '\n' ' '); else suite=$(cargo test -p rumqttd --offline --lib 2>&1 | grep -E "^test result" | tr '\n' ' '); fi
   { echo "demo on unchanged tree: $r0"; echo "demo with patch:        $r1"; echo "crate test suite with patch (includes the demo): $suite"; } > $d/confirm.txt
 done
